@@ -1001,6 +1001,23 @@ func ruleGuardOpen(c *Ctx, r *Rep) {
 				}
 			}
 		}
+		// or the length of the work list once the loop over it has ended: the loop is left only when the index has
+		// reached that length, so every entry was visited (WORKLIST decides start, step and condition of that loop)
+		if !okCnt {
+			if list, isLen := lenOperand(bin.X); isLen {
+				if phi, isPhi := list.(*ssa.Phi); isPhi {
+					if body, isHead := naturalLoops(cons)[phi.Block()]; isHead && !body[ret.Block()] {
+						if iff, ok := lastInstr(phi.Block()).(*ssa.If); ok {
+							if cmp, ok := iff.Cond.(*ssa.BinOp); ok && cmp.Op == token.LSS {
+								if of, isLen2 := lenOperand(cmp.Y); isLen2 && of == ssa.Value(phi) {
+									okCnt = true
+								}
+							}
+						}
+					}
+				}
+			}
+		}
 		r.Check(okN && okCnt, "consistency-result|"+ck, c.Pos(ret.Pos()), "number of work-list entries visited == NumEntities()", bin.X.String()+" == "+strings.Join(o, ","))
 	}
 	var feeds []string
